@@ -17,7 +17,7 @@ OBJ2 = b"another ascii object\n"
 DOC = b"<metadata>one</metadata>\n"
 DOC2 = b"<metadata>two, a longer one</metadata>\n"
 ARGERR = {"ValueError", "TypeError", "UnsupportedAlgorithm"}
-PIDS = ("held", "new", "unknown")
+PIDS = ("held", "new", "unknown", "rotten")
 FORMATS = (NS, "fmt2")
 
 
@@ -72,7 +72,12 @@ def base_tree():
     s.store_object("held", INP["obj"])
     s.store_metadata("held", INP["doc"])
     s.store_metadata("held", INP["doc"], "fmt2")
-    return snapshot(root)
+    # a pid whose object file was altered on disk after it was stored (bit rot, truncated restore)
+    md = s.store_object("rotten", INP["doc2"])
+    t = snapshot(root)
+    from ..absx import Layout as _L
+    t[_L().obj_path(md.cid)] = DOC2 + b"altered"
+    return t
 
 
 INP = {}
@@ -99,9 +104,11 @@ def cases():
             out.append(("storeobject", {"pid": pid, "path": "obj2", "algo": algo,
                                         "checksum": ck[1] if ck else None, "checksum_algo": ck[0] if ck else None,
                                         "obj_size": size}))
-    for pid in ("held", "unknown"):
-        for algo in ("sha256", "SHA-512", "blake2b", "SHA3-256", "bogus", None):
+    for pid in ("held", "unknown", "rotten"):
+        for algo in ("sha256", "SHA-256", "SHA-512", "blake2b", "SHA3-256", "md5", "bogus", None):
             out.append(("getchecksum", {"pid": pid, "algo": algo}))
+    out.append(("retrieveobject", {"pid": "rotten"}))
+    for pid in ("held", "unknown"):
         out.append(("retrieveobject", {"pid": pid}))
         out.append(("deleteobject", {"pid": pid}))
         for fmt in (None, NS, "fmt2", "nofmt"):
